@@ -378,6 +378,17 @@ namespace hv
             if (op[0] == '+') (void)out.add(Int{std::atoll(op.c_str() + 1)});
             else if (op[0] == '-') (void)out.remove(Int{std::atoll(op.c_str() + 1)});
             else if (op[0] == 'c') out.clear();
+            else if (op[0] == ':')
+            {
+                // :a;b;c  whole-value assignment (copy_value_from a set value): what push sources, table outputs and keyed
+                // entries assigned as a whole do; ":" alone assigns the empty set
+                SetBuilder builder{stdlib::scalar_value_binding<Int>()};
+                for (const auto &e : split(op.substr(1), ';'))
+                    if (!e.empty()) (void)builder.insert(Int{std::atoll(e.c_str())});
+                Value whole = builder.build();
+                auto  m     = out_base(out).begin_mutation(now);
+                (void)m.copy_value_from(whole.view());
+            }
             else throw std::runtime_error("bad TSS op " + op);
         }
         else if constexpr (std::is_same_v<Sch, TSS<I32>>)
@@ -385,6 +396,15 @@ namespace hv
             if (op[0] == '+') (void)out.add(I32{(I32)std::atoll(op.c_str() + 1)});
             else if (op[0] == '-') (void)out.remove(I32{(I32)std::atoll(op.c_str() + 1)});
             else if (op[0] == 'c') out.clear();
+            else if (op[0] == ':')
+            {
+                SetBuilder builder{stdlib::scalar_value_binding<I32>()};
+                for (const auto &e : split(op.substr(1), ';'))
+                    if (!e.empty()) (void)builder.insert(I32{(I32)std::atoll(e.c_str())});
+                Value whole = builder.build();
+                auto  m     = out_base(out).begin_mutation(now);
+                (void)m.copy_value_from(whole.view());
+            }
             else throw std::runtime_error("bad TSS32 op " + op);
         }
         else if constexpr (is_tsd<Sch>::value)
@@ -504,6 +524,29 @@ namespace hv
             }
             for (const Int k : stale) (void)out.erase(k);
             for (const auto &[k, v] : sum) out.set(k, v);
+        }
+    };
+
+    // TS<Int> -> TSS<Int>: publishes (value mod m) into a set output; acc=1 accumulates over the life of the INSTANCE, acc=0 keeps
+    // exactly the latest element. A fresh instance therefore starts from the empty set (C12: collection-valued switch outputs).
+    struct VToSet
+    {
+        static constexpr auto name = "v_toset";
+        static void stop(Scalar<"uid", Int> uid, NodeView nv, DateTime now) { user_stop(uid.value(), nv, now); }
+        static void eval(In<"a", TS<Int>> a, Scalar<"uid", Int> uid, Scalar<"mod", Int> mod, Scalar<"acc", Int> acc, State<Int> last,
+                         NodeView nv, DateTime now, Out<TSS<Int>> out)
+        {
+            const Int m = mod.value() <= 0 ? Int{8} : mod.value();
+            const Int e = ((a.value() % m) + m) % m;
+            if (acc.value() == 0 && last.get() != e && last.get() >= 0) (void)out.remove(last.get());
+            (void)out.add(e);
+            last.set(e);
+            log_eval(uid.value(), nv, now, e, a);
+        }
+        static void start(State<Int> last, Scalar<"uid", Int> uid, NodeView nv, DateTime now)
+        {
+            last.set(Int{-1});
+            user_start(uid.value(), nv, now);
         }
     };
 
